@@ -481,6 +481,30 @@ def check(inp):
     f = params[0]
     c0 = f * (1 - f)
 
+    if c == "reuse":
+        # a layer whose density is updated in place (Layer.update writes microstructure.frac_volume): the numerically provided spectral
+        # form must be that of the *current* parameters, i.e. equal the one of a layer built afresh with them
+        from smrt import make_snow_layer
+        from smrt.core.globalconstants import DENSITY_OF_ICE
+        names = CLASSES[model][2][1:]
+        kw = dict(zip(names, params[1:]))
+        if inp.get("ft_numerical"):
+            kw["ft_numerical"] = True
+        f2 = inp["f2"]
+        ell = length_of(model, params)
+        k = np.array([0.0, 0.3, 1.0, 2.0]) / ell
+        lay = make_snow_layer(1.0, CLASSES[model][0], density=f * DENSITY_OF_ICE, temperature=260, **kw)
+        first = np.asarray(lay.microstructure.ft_autocorrelation_function(k), dtype=float)
+        lay.update(density=f2 * DENSITY_OF_ICE)
+        got = np.asarray(lay.microstructure.ft_autocorrelation_function(k), dtype=float)
+        fresh = make_snow_layer(1.0, CLASSES[model][0], density=f2 * DENSITY_OF_ICE, temperature=260, **kw)
+        want = np.asarray(fresh.microstructure.ft_autocorrelation_function(k), dtype=float)
+        dev = float(np.max(np.abs(got - want) / np.maximum(np.abs(want), 1e-300)))
+        if not dev <= 1e-9:
+            return (CLASSES[model][0] + ":ft-after-update", f"{CLASSES[model][0]}: after layer.update(density=...) the spectral form is not the one of "
+                    f"a fresh layer with the same parameters (f {f} -> {f2})", dev, "relative deviation <= 1e-9")
+        return None
+
     if c == "origin":
         m = mk(model, params)
         got = acf1(m, 0.0)
@@ -729,6 +753,12 @@ def oracle(ctx, hints, effort):
             cases.append({"check": "pair-numeric-acf", "model": model, "params": p, "j": int(rng.integers(0, 200))})
     for _ in range(1 if effort == "routine" else 4):
         cases.append({"check": "pair-numeric-ft", "model": "grf", "params": rparams(rng, "grf"), "k_len": float(np.round(rng.uniform(0, 3), 2))})
+
+    for model, num in (("grf", False), ("exp", True), ("sph", True)):
+        for _ in range(1 if effort == "routine" else 4):
+            p = rparams(rng, model)
+            p[0] = float(np.round(rng.uniform(0.05, 0.45), 2))
+            cases.append({"check": "reuse", "model": model, "params": p, "f2": float(np.round(rng.uniform(0.5, 0.9), 2)), "ft_numerical": num})
 
     best, evals = {}, 0
     for inp in cases:
